@@ -264,6 +264,14 @@ def run_regroup(ctx, loe, rng, widths, mlw, bs):
     inp = dict(stage='process_lines(transformer)', widths=widths, max_line_width=mlw, batch_size=bs, parts=parts)
     try:
         tr, lg, co = eng.process_lines(lines, sparse_logits=False)
+        if rng.random() < 0.4:
+            # the same lines in no-logits mode: the same texts, no logits
+            trn, lgn, con = eng.process_lines(lines, no_logits=True)
+            if list(trn) != list(tr) or any(x is not None for x in lgn):
+                ctx.violation('regroup:no-logits', 'process_lines(no_logits=True) does not return the same transcriptions (and no logits) as with logits', inp,
+                              list(trn), list(tr))
+                return
+            ctx.count('regroup_no_logits')
     except AttributeError as e:
         # the engine object is built without its constructor (no checkpoint): an attribute the loop newly needs is missing on the stand-in
         ctx.count('regroup_engine_standin_unusable')
